@@ -24,6 +24,7 @@
 #include <signal.h>
 #include <sys/wait.h>
 #include <sys/resource.h>
+#include <sys/time.h>
 #include <sys/mman.h>
 #include <functional>
 #include <unordered_set>
@@ -62,9 +63,10 @@ namespace c12 {
 enum { X_REFUSED = 40, X_ACCEPTED = 41, X_STDEXC = 42, X_NONSTD = 43, X_BRIDGE = 98, X_ALLOC = 99 };
 
 // ------------------------------------------------------------------------------------------------ bridge
-static const size_t HEAP_LIMIT = (size_t)3 << 30;    // live heap bytes in a child
+static const size_t HEAP_LIMIT = (size_t)3 << 30;    // live heap bytes a single case may add
 static const long RSS_LIMIT_KB = 1L << 20;            // peak resident set of a child: 1 GiB
 static bool in_child = false;
+static size_t heap_base = 0;                          // live heap at the start of the running case
 
 static void bridge_fail(const char *fn, void *dst, size_t n)
 {
@@ -92,7 +94,7 @@ static void malloc_hook(const volatile void *, size_t size)
 		return;
 	if (size >= (64u << 10) || ((++hook_calls) & 255u) == 0)
 	{
-		if (__sanitizer_get_current_allocated_bytes() > HEAP_LIMIT)
+		if (__sanitizer_get_current_allocated_bytes() > heap_base + HEAP_LIMIT)
 		{
 			const char msg[] = "\nC12-ALLOC: live heap above limit\n";
 			if (write(2, msg, sizeof msg - 1) < 0) {}
@@ -312,6 +314,7 @@ struct Res {
 struct Forker {
 	int errfd;
 	unsigned cpu_s, wall_s;
+	std::function<void()> prologue;      // executed in the child before every case (coin source / clock reset)
 	Forker() : errfd(-1), cpu_s(10), wall_s(90)
 	{
 		char path[] = "/tmp/c12-err-XXXXXX";
@@ -323,7 +326,53 @@ struct Forker {
 	}
 	~Forker() { if (errfd >= 0) close(errfd); }
 
-	// raw: run body in a child under the given limits; returns wait status, fills rusage and stderr text
+	void read_err(std::string &err)
+	{
+		err.clear();
+		if (errfd < 0) return;
+		char buf[16384];
+		off_t off = 0;
+		ssize_t n;
+		while (err.size() < (1u << 18) && (n = pread(errfd, buf, sizeof buf, off)) > 0)
+			err.append(buf, n), off += n;
+	}
+	void child_setup(unsigned cpu_hard)
+	{
+		in_child = true;
+		int dn = open("/dev/null", O_RDWR);
+		if (dn >= 0) { dup2(dn, 0); dup2(dn, 1); }
+		if (errfd >= 0) dup2(errfd, 2);
+		struct rlimit rl;
+		rl.rlim_cur = rl.rlim_max = 0;
+		setrlimit(RLIMIT_CORE, &rl);
+		if (cpu_hard)
+		{
+			rl.rlim_cur = cpu_hard, rl.rlim_max = cpu_hard + 2;
+			setrlimit(RLIMIT_CPU, &rl);
+		}
+		std::cerr.rdbuf(nullptr), std::cout.rdbuf(nullptr), std::clog.rdbuf(nullptr);
+	}
+	void case_begin(unsigned cpu, unsigned wall)
+	{
+		// CPU watchdog for this case (SIGPROF, default action: terminate) and a wall-clock guard
+		struct itimerval it;
+		memset(&it, 0, sizeof it);
+		it.it_value.tv_sec = cpu;
+		setitimer(ITIMER_PROF, &it, NULL);
+		alarm(wall);
+#if C12_ASAN
+		heap_base = __sanitizer_get_current_allocated_bytes();
+#endif
+		if (prologue) prologue();
+	}
+	static int run_body(const std::function<int()> &body)
+	{
+		try { return body() ? X_ACCEPTED : X_REFUSED; }
+		catch (std::exception &) { return X_STDEXC; }
+		catch (...) { return X_NONSTD; }
+	}
+
+	// isolated: run one case in its own child; returns wait status, fills rusage and stderr text
 	int spawn(const std::function<int()> &body, unsigned cpu, unsigned wall, struct rusage &ru, std::string &err, double &secs)
 	{
 		double t0 = drv::now();
@@ -333,35 +382,48 @@ struct Forker {
 		if (pid < 0) { perror("fork"); exit(2); }
 		if (pid == 0)
 		{
-			in_child = true;
-			int dn = open("/dev/null", O_RDWR);
-			if (dn >= 0) { dup2(dn, 0); dup2(dn, 1); }
-			if (errfd >= 0) dup2(errfd, 2);
-			struct rlimit rl;
-			rl.rlim_cur = cpu, rl.rlim_max = cpu + 2;
-			setrlimit(RLIMIT_CPU, &rl);
-			rl.rlim_cur = rl.rlim_max = 0;
-			setrlimit(RLIMIT_CORE, &rl);
-			alarm(wall);
-			std::cerr.rdbuf(nullptr), std::cout.rdbuf(nullptr), std::clog.rdbuf(nullptr);
-			int code;
-			try { code = body() ? X_ACCEPTED : X_REFUSED; }
-			catch (std::exception &) { code = X_STDEXC; }
-			catch (...) { code = X_NONSTD; }
-			_exit(code);
+			child_setup(cpu + 5);
+			case_begin(cpu, wall);
+			_exit(run_body(body));
 		}
 		int st = 0;
 		while (wait4(pid, &st, 0, &ru) < 0 && errno == EINTR) {}
-		err.clear();
-		if (errfd >= 0)
-		{
-			char buf[16384];
-			off_t off = 0;
-			ssize_t n;
-			while (err.size() < (1u << 18) && (n = pread(errfd, buf, sizeof buf, off)) > 0)
-				err.append(buf, n), off += n;
-		}
+		read_err(err);
 		secs = drv::now() - t0;
+		return st;
+	}
+
+	// batch: run cases [from, to) sequentially in one child; one outcome byte per finished case comes back through a pipe.
+	// Returns the wait status; codes.size() < to - from means the child died (or was killed) while running case from + codes.size().
+	int spawn_batch(const std::function<int(size_t)> &body, size_t from, size_t to, std::vector<unsigned char> &codes, struct rusage &ru)
+	{
+		codes.clear();
+		int pfd[2];
+		if (pipe(pfd)) { perror("pipe"); exit(2); }
+		if (errfd >= 0) { if (ftruncate(errfd, 0) < 0) {} lseek(errfd, 0, SEEK_SET); }
+		fflush(stdout), fflush(stderr);
+		pid_t pid = fork();
+		if (pid < 0) { perror("fork"); exit(2); }
+		if (pid == 0)
+		{
+			close(pfd[0]);
+			child_setup(0);
+			for (size_t i = from; i < to; i++)
+			{
+				case_begin(cpu_s, wall_s);
+				unsigned char c = (unsigned char)run_body([&]() { return body(i); });
+				if (write(pfd[1], &c, 1) != 1) _exit(3);
+			}
+			_exit(0);
+		}
+		close(pfd[1]);
+		unsigned char buf[4096];
+		ssize_t n;
+		while ((n = read(pfd[0], buf, sizeof buf)) > 0 || (n < 0 && errno == EINTR))
+			if (n > 0) codes.insert(codes.end(), buf, buf + n);
+		close(pfd[0]);
+		int st = 0;
+		while (wait4(pid, &st, 0, &ru) < 0 && errno == EINTR) {}
 		return st;
 	}
 
@@ -395,7 +457,9 @@ struct Forker {
 		{
 			size_t s = p + 25, e = err.find_first_of(" \n", s);
 			r.vkind = err.substr(s, e - s);
-			first = err.substr(p, err.find('\n', p) - p);
+			first = err.substr(p + 7, err.find('\n', p) - p - 7);
+			if (first.find(" (pc ") != std::string::npos) first = first.substr(0, first.find(" (pc "));
+			if (first.find(" at pc ") != std::string::npos) first = first.substr(0, first.find(" at pc "));
 			if (first.size() > 160) first = first.substr(0, 160);
 		}
 		else if ((p = err.find("runtime error: ")) != std::string::npos)
@@ -445,6 +509,11 @@ struct Forker {
 			}
 			if (no > 0 && off > 0) off -= 1;
 			const std::vector<std::pair<std::string, std::string> > &v = S.lookup(off);
+			bool harness = false;
+			for (size_t i = 0; i < v.size(); i++)
+				if (v[i].second.find("drivers/c12_") != std::string::npos) harness = true;
+			if (harness)
+				break;
 			for (size_t i = 0; i < v.size(); i++)
 			{
 				bool lib = is_library_file(v[i].second);
@@ -460,20 +529,24 @@ struct Forker {
 		r.detail = first + (frames.empty() ? "" : " | stack:" + frames);
 	}
 
+	static bool is_timeout(int st)
+	{
+		return WIFSIGNALED(st) && (WTERMSIG(st) == SIGXCPU || WTERMSIG(st) == SIGALRM || WTERMSIG(st) == SIGKILL || WTERMSIG(st) == SIGPROF);
+	}
 	Res run(const std::function<int()> &body)
 	{
 		Res r;
 		struct rusage ru;
 		std::string err;
 		int st = spawn(body, cpu_s, wall_s, ru, err, r.secs);
-		bool timeout = WIFSIGNALED(st) && (WTERMSIG(st) == SIGXCPU || WTERMSIG(st) == SIGALRM || WTERMSIG(st) == SIGKILL);
+		bool timeout = is_timeout(st);
 		if (timeout)
 		{
 			// confirm with a 10x limit before calling it non-termination
 			double s2;
 			int st2 = spawn(body, cpu_s * 10, wall_s * 10, ru, err, s2);
 			r.secs += s2;
-			bool timeout2 = WIFSIGNALED(st2) && (WTERMSIG(st2) == SIGXCPU || WTERMSIG(st2) == SIGALRM || WTERMSIG(st2) == SIGKILL);
+			bool timeout2 = is_timeout(st2);
 			if (timeout2)
 			{
 				r.kind = Res::VIOLATION, r.vkind = "hang";
@@ -739,8 +812,14 @@ struct Runner {
 	Forker F;
 	std::map<std::string, unsigned> viol_emitted;
 	unsigned per_key;
+	size_t batch_cases, batch_bytes;     // a batch is closed when either is reached (batch_cases == 1: strict fork per case)
 	uint64_t machinery_errors;
-	Runner(drv::Report &r) : R(r), per_key(2), machinery_errors(0) {}
+	Runner(drv::Report &r) : R(r), per_key(2), batch_cases(256), batch_bytes(8u << 20), machinery_errors(0)
+	{
+		long b = r.args.geti("batch", 0);
+		if (b > 0) batch_cases = (size_t)b;
+		if (batch_cases > 4096) batch_cases = 4096;
+	}
 
 	static std::string printable(const std::string &s, size_t maxlen = 300)
 	{
@@ -756,19 +835,19 @@ struct Runner {
 		if (s.size() > maxlen) o += "...(" + drv::str(s.size()) + " bytes)";
 		return o;
 	}
+	static const char *outcome_name(const Res &r)
+	{
+		return r.violation() ? "VIOLATION" : r.kind == Res::REFUSED ? "refused" : r.kind == Res::ACCEPTED ? "accepted" : "std::exception";
+	}
 
 	void record(const Target &T, const std::string &caseid, const std::string &cls, const std::string &input, const Res &r)
 	{
 		R.ok(true);
 		R.counters["cases:" + T.name]++;
-		switch (r.kind)
-		{
-			case Res::REFUSED: R.counters["outcome:refused"]++; break;
-			case Res::ACCEPTED: R.counters["outcome:accepted"]++; break;
-			case Res::STDEXC: R.counters["outcome:std-exception"]++; break;
-			default: R.counters["outcome:VIOLATION"]++; break;
-		}
+		R.counters[std::string("outcome:") + outcome_name(r)]++;
 		if (r.slow) R.counters["slow-but-terminating"]++;
+		if (R.samples_emitted < R.max_samples && (R.evaluations % 1499) == 1)
+			R.sample(caseid, "class=" + cls + " outcome=" + (r.violation() ? r.vkind : outcome_name(r)) + " input=" + printable(input, 120));
 		if (!r.violation())
 			return;
 		std::string key = r.key(T.name);
@@ -776,6 +855,64 @@ struct Runner {
 		unsigned &n = viol_emitted[key];
 		if (n++ < per_key)
 			R.viol(key, "mutation=" + cls + " seed=" + T.seedname + " " + r.detail + " | input=" + printable(input), caseid);
+	}
+
+	struct Pending { std::string id, cls, data; };
+
+	void flush(const Target &T, std::vector<Pending> &P)
+	{
+		size_t done = 0;
+		while (done < P.size())
+		{
+			if (P.size() - done == 1 || batch_cases <= 1)
+			{
+				const Pending &c = P[done];
+				Res r = F.run([&]() { return T.run(c.data); });
+				record(T, T.name + "/" + T.seedname + "/" + c.id, c.cls, c.data, r);
+				done++;
+				continue;
+			}
+			std::vector<unsigned char> codes;
+			struct rusage ru;
+			memset(&ru, 0, sizeof ru);
+			size_t from = done;
+			int st = F.spawn_batch([&](size_t i) { return T.run(P[i].data); }, from, P.size(), codes, ru);
+			R.counters["batches"]++;
+			bool rss_suspect = ru.ru_maxrss > RSS_LIMIT_KB;
+			for (size_t j = 0; j < codes.size() && from + j < P.size(); j++)
+			{
+				const Pending &c = P[from + j];
+				Res r;
+				if (codes[j] == X_REFUSED) r.kind = Res::REFUSED;
+				else if (codes[j] == X_ACCEPTED) r.kind = Res::ACCEPTED;
+				else if (codes[j] == X_STDEXC) r.kind = Res::STDEXC;
+				else { r.kind = Res::VIOLATION, r.vkind = "nonstd-exception", r.detail = "an exception not derived from std::exception escaped"; }
+				if (rss_suspect)
+					r = F.run([&]() { return T.run(c.data); });    // attribute the memory peak: every case of this batch alone
+				record(T, T.name + "/" + T.seedname + "/" + c.id, c.cls, c.data, r);
+			}
+			done = from + std::min(codes.size(), P.size() - from);
+			if (done < P.size() && !(WIFEXITED(st) && WEXITSTATUS(st) == 0 && codes.size() >= P.size() - from))
+			{
+				// the child died while running P[done]: decide and attribute by running that case alone
+				const Pending &c = P[done];
+				Res r = F.run([&]() { return T.run(c.data); });
+				if (!r.violation())
+				{
+					// not reproducible in isolation: depends on the cases before it in the same child
+					std::string err;
+					F.read_err(err);
+					Res rb;
+					rb.kind = Res::VIOLATION;
+					rb.vkind = "batch-only-crash";
+					rb.detail = "child ended abnormally (status " + drv::str(st) + ") in a batch starting at " + P[from].id + "; the case alone gives " + outcome_name(r);
+					r = rb;
+				}
+				record(T, T.name + "/" + T.seedname + "/" + c.id, c.cls, c.data, r);
+				done++;
+			}
+		}
+		P.clear();
 	}
 
 	void run_target(const Target &T)
@@ -795,24 +932,31 @@ struct Runner {
 				}
 				else
 				{
-					printf("{\"t\":\"error\",\"what\":\"%s\"}\n", drv::jesc("seed of " + cid0 + " is not accepted (outcome " + drv::str((int)r0.kind) + "): harness bug").c_str());
+					printf("{\"t\":\"error\",\"what\":\"%s\"}\n", drv::jesc("seed of " + cid0 + " is not accepted (outcome " + outcome_name(r0) + "): harness bug").c_str());
 					machinery_errors++;
 				}
 				return;
 			}
 			R.counters["seeds"] += (R.args.shard == 0) ? 1 : 0;
 		}
+		std::vector<Pending> P;
+		size_t bytes = 0;
+		bool stop = false;
 		auto one = [&](const Mutation &m) {
+			if (stop) return;
 			std::string cid = T.name + "/" + T.seedname + "/" + m.id;
 			if (!R.mine() || !R.selected(cid))
 				return;
-			if (R.out_of_time())
-				return;
-			Res r = F.run([&]() { return T.run(m.data); });
-			record(T, cid, m.cls, m.data, r);
-			if (R.samples_emitted < R.max_samples && (R.evaluations % 997) == 1)
-				R.sample(cid, "class=" + m.cls + " outcome=" + (r.violation() ? r.vkind : r.kind == Res::REFUSED ? "refused" : r.kind == Res::ACCEPTED ? "accepted" : "std::exception") +
-					" input=" + printable(m.data, 120));
+			Pending p;
+			p.id = m.id, p.cls = m.cls, p.data = m.data;
+			P.push_back(p);
+			bytes += m.data.size();
+			if (P.size() >= batch_cases || bytes >= batch_bytes)
+			{
+				if (R.out_of_time()) { stop = true; P.clear(); return; }
+				flush(T, P);
+				bytes = 0;
+			}
 		};
 		if (T.mode == Target::TEXT)
 			T.cat.text(T.seed, one, T.delims);
@@ -820,6 +964,11 @@ struct Runner {
 			T.cat.bytes(T.seed, one, NULL, false);
 		else
 			T.cat.bytes(T.seed, one, NULL, true, T.ranges.empty() ? NULL : &T.ranges);
+		if (!stop && !P.empty())
+		{
+			if (R.out_of_time()) P.clear();
+			else flush(T, P);
+		}
 	}
 };
 
